@@ -1,7 +1,7 @@
 (* Svg.v - model of the SVG output (src/to_svg.rs): the six numbers printed for a transform, how an
    SVG renderer reads matrix(a b c d e f), and the list of <use> elements of a state's document.
    Definitions only. *)
-From Coq Require Import ZArith List Bool.
+From Coq Require Import ZArith List Bool String.
 From PV Require Import Num model.Geom.
 Import ListNotations.
 Local Open Scope num_scope.
@@ -26,4 +26,18 @@ Section Svg.
   Definition svg_cell_uses (c : cell NN) : list (tf NN) := periodic_images NN c (tf_identity NN) 1 true.
   Definition svg_mol_uses (c : cell NN) (rel : list (tf NN)) : list (tf NN) :=
     flat_map (fun pos => to_cartesian_isometry NN c pos :: periodic_images NN c pos 1 false) rel.
+
+  (* a <use> element: the placement it shows and its attributes in the order they are set
+     (element::Use as built by Transform2::as_svg() and .set(name, value)) *)
+  Definition svg_elem : Type := (tf NN * list (string * string))%type.
+  Definition svg_use (t : tf NN) : svg_elem := (t, []).
+  Definition svg_set (e : svg_elem) (k v : string) : svg_elem := (fst e, snd e ++ [(k, v)]).
+
+  (* the elements of a state's document after the definitions: the cell frames, then every placement (blue) followed
+     by its images (green) *)
+  Definition svg_elements (c : cell NN) (rel : list (tf NN)) : list svg_elem :=
+    map (fun t => (t, [("href", "#cell")]%string)) (svg_cell_uses c)
+    ++ flat_map (fun pos =>
+         (to_cartesian_isometry NN c pos, [("href", "#mol"); ("fill", "blue")]%string)
+         :: map (fun t => (t, [("href", "#mol"); ("fill", "green")]%string)) (periodic_images NN c pos 1 false)) rel.
 End Svg.
